@@ -20,6 +20,10 @@ comparison callback is a consistent ordering.  Decided:
                rational identities with the locals inlined); the extensive set is exactly the set cxxSolution::multiply scales,
                and the element totals / isotopes are added and scaled by their extensive helpers.  A member moved to the other
                class, or an extensive term without the factor, makes scaling or splitting a mix change the result.
+  C15.addmul   the same partition for the other reactant classes that can be mixed (exchange, gas, kinetics, pure-phase, surface,
+               surface-charge and surface-site components): a member added as  += addee.x * extensive  in <class>::add is scaled
+               by <class>::multiply and vice versa (multiplications by the literal 1 are no-ops); one recorded deviation
+               (tables/c15_addmul_exempt.json)
   C15.scale    "scaling the water mass and all extensive amounts by a common factor": Phreeqc::calc_dens turns species amounts into
                the solution density, mass and volume.  With the extensive inputs (species moles, water mass) scaled by 2 - decided
                as an exact rational identity, accumulators classified from their own update statements - the density is unchanged
@@ -303,8 +307,69 @@ def scale_rule(P, R):
             R.anchor_missing("C15.scale", "calc_dens: assignment of %s not found" % nm)
 
 
+def addmul_rule(P, R):
+    import json, os
+    from ..facts import VERIF
+    tab = json.load(open(os.path.join(VERIF, "tables", "c15_addmul_exempt.json")))
+    R.table("c15_addmul_exempt.json", tab)
+    R.rule("C15.addmul", "reactant component classes: members added extensively in add() are exactly the members scaled by multiply()", minimum=12)
+    used = set()
+    for c in ("cxxExchComp", "cxxGasComp", "cxxKineticsComp", "cxxPPassemblageComp", "cxxSurfaceCharge", "cxxSurfaceComp"):
+        fa = [f for f in P.fns_named(c + "::add") if len(f["pnames"]) == 2]
+        fm = P.fns_named(c + "::multiply")
+        if len(fa) != 1 or len(fm) != 1:
+            R.anchor_missing("C15.addmul", "%s::add / multiply not found" % c)
+            continue
+        fa, fm = fa[0], fm[0]
+        addee, ext = fa["pnames"]
+        extadd, other = {}, {}
+        for x in T.walk(fa["body"]):
+            if x[0] == "Bin" and x[2] in T.ASSIGN_OPS:
+                t = T.strip_casts(x[3])
+                if t[0] == "Member" and T.is_node(t[3]) and T.strip_casts(t[3])[0] == "This":
+                    fld = t[2].split("::")[-1]
+                    r = T.strip_casts(x[4])
+                    # += addee.fld * extensive (either operand order)
+                    okx = False
+                    if x[2] == "+=" and r[0] == "Bin" and r[2] == "*":
+                        sides = [T.strip_casts(r[3]), T.strip_casts(r[4])]
+                        hasf = any(s_[0] == "Member" and s_[2].split("::")[-1] == fld and T.is_node(s_[3]) and T.strip_casts(s_[3])[0] == "Ref" and T.strip_casts(s_[3])[3] == addee for s_ in sides)
+                        hase = any(s_[0] == "Ref" and s_[3] == ext for s_ in sides)
+                        okx = hasf and hase
+                    if okx:
+                        extadd[fld] = x[1]
+                    elif x[2] == "+=":
+                        other[fld] = (x[1], T.text(x[4])[:60])
+        mul = {}
+        for x in T.walk(fm["body"]):
+            if x[0] == "Bin" and x[2] == "*=":
+                t = T.strip_casts(x[3])
+                r = T.strip_casts(x[4])
+                if t[0] == "Member" and not (r[0] == "Lit" and float(str(r[3]).rstrip("fFlL")) == 1.0):
+                    mul[t[2].split("::")[-1]] = x[1]
+        for fld, (line, txt) in sorted(other.items()):
+            R.violation("C15.addmul", "%s::%s" % (c, fld), "`%s += %s` in %s::add is not `addee.%s * extensive`" % (fld, txt, c, fld), file=fa["file"], line=line, function=fa["q"])
+        for fld in sorted(set(extadd) | set(mul)):
+            inst = "%s::%s" % (c, fld)
+            if fld in extadd and fld in mul:
+                R.ok("C15.addmul", inst, "extensive in add and scaled by multiply")
+                continue
+            row = tab["rows"].get(inst)
+            if row:
+                used.add(inst)
+                R.ok("C15.addmul", inst, "recorded deviation (%s)" % row["kind"])
+            elif fld in extadd:
+                R.violation("C15.addmul", inst, "%s is added extensively by %s::add but %s::multiply does not scale it: a mixing fraction is ignored for it" % (fld, c, c), file=fm["file"], line=fm["line"], function=fm["q"])
+            else:
+                R.violation("C15.addmul", inst, "%s::multiply scales %s but %s::add does not add it extensively" % (c, fld, c), file=fa["file"], line=fa["line"], function=fa["q"])
+    for k in tab["rows"]:
+        if k not in used:
+            R.anchor_missing("C15.addmul", "exemption row %s no longer matches a deviation" % k)
+
+
 def run(P, R, tier):
     addsol_rule(P, R)
+    addmul_rule(P, R)
     scale_rule(P, R)
     R.undecided += ["unit conversion and density iteration (numerical)", "scaling of extensive amounts, mixing order, repeated definitions (pairs of runs)"]
     R.rule("C15.compare", "every qsort comparison callback applies the same accessor to both operands and returns mirrored signs", minimum=25)
